@@ -332,9 +332,8 @@ def run(ctx):
         hist[variant] = hist.get(variant, 0) + 1
         label = {"family": fam, "variant": variant, "params": [fstr(p) for p in ps]}
         if "error" in r:
-            ctx.violation(f"{fam}:eval-error", {"input": label, "result": r},
-                          f"{fam}({', '.join(label['params'])}) could not be evaluated: {r.get('etype', r['error'])} {r.get('msg', '')[:200]}",
-                          no_input=False)
+            fnd.add(f"{fam}:eval", (0, 0), f"{fam}:eval-error:params={label['params']}", {"input": label, "result": r},
+                    f"{fam}({', '.join(label['params'])}) could not be constructed/evaluated: {r.get('etype', r['error'])} {r.get('msg', '')[:200]}")
             continue
         args = coq_args(variant, ps)
         cases = coq_cases.setdefault(variant, [])
@@ -658,7 +657,9 @@ def run(ctx):
     # ---- 7. broken translator / proof / correspondence without a differing input --------
     fnd.flush()
     n_input_violations = len(ctx.violations)
-    if tr_error is not None:
+    if tr_error is not None and n_input_violations > 0:
+        print(f"  (translator aborted as well: {tr_error})", flush=True)
+    elif tr_error is not None:
         ctx.violation("translator-abort", {"file": tr_error.file, "line": tr_error.line, "why": tr_error.why,
                                            "oracle_search": f"{cov['evaluations']} evaluations of the real code against the oracle, "
                                                             f"{n_mismatch_oracle} moment mismatches"},
